@@ -3,12 +3,14 @@ from lib import vf, opxlib
 
 LEVEL = "model_checking"
 SRC = "engines/opx/sc_c17.cpp"
+SRC_REG = ["engines/seqx/c17_registry.cpp"]
 ENV = {"ASAN_OPTIONS": "detect_leaks=0:abort_on_error=1:detect_stack_use_after_return=0"}
 
 
 def prebuild():
     opxlib.build("sc_c17_asan", SRC, opxlib.ASAN)
     opxlib.build("sc_c17", SRC)
+    vf.build("c17_registry", SRC_REG, ["-O1"])
 
 
 def jobs(tier, asan):
@@ -42,6 +44,15 @@ def run(ctx):
                 "cycles, against the preemptible backend, under AddressSanitizer; recording sinks signal their destruction; "
                 "distinct = distinct observable outcomes")
     ctx.set_deadline(170 if ctx.tier == "quick" else 1800)
+    # (b) the name registries, sequentially: explicit-state BFS over create / look-up / drop / remove / log histories through
+    # the public API against a reference model of who holds which sink
+    ctx.rule += ("; registry BFS: histories over {create_or_get_sink(s), drop the user's reference, create_or_get_logger(L, sink set), "
+                 "remove_logger + poll to completion, log} for 2 sink names x 2 logger names x 3 sink sets up to the depth bound, state = "
+                 "registry entries in order (name, expired / object rank) + loggers + user references; after every step the live sink "
+                 "objects, get_sink, get_logger and the sinks a statement reaches must equal the reference")
+    reg = vf.build("c17_registry", SRC_REG, ["-O1"])
+    rr = vf.run(reg, ["--depth", 10 if ctx.tier == "quick" else 18], timeout=600)
+    ctx.absorb(rr, "c17_registry")
     # forking an AddressSanitizer process is ~10x slower: the sanitizer build covers the lower preemption bound, the plain
     # build (quill's asserts live, destruction marks checked) the higher one
     exe_asan = opxlib.build("sc_c17_asan", SRC, opxlib.ASAN)
@@ -53,4 +64,11 @@ def run(ctx):
 
 
 def replay(rep, extra):
+    if "history" in rep["record"]:
+        reg = vf.build("c17_registry", SRC_REG, ["-O1"])
+        rr = vf.run(reg, ["--replay", rep["record"]["case"]], timeout=120)
+        bad = [r for r in rr.records if r.get("t") == "viol"]
+        for r in bad:
+            print("VIOLATION property=C17 replay=(given) detail=%s" % r)
+        return 1 if bad else 0
     return opxlib.replay("C17", opxlib.build("sc_c17_asan", SRC, opxlib.ASAN), rep)
